@@ -37,7 +37,11 @@ CONSTRAINT_SETS = {
     "two-sided": {"var_range": {R1: [0.2, 1.5]}},
     "one-sided+gauss": {"var_range": {R1: [0.1, None], R2: [None, 2.5]}, "gauss_constr": {I1: [0.3, 0.5]}},
     "all": {"fix_var": {I2: -0.4}, "var_range": {R1: [0.2, 1.5], R2: [0.1, None]}, "gauss_constr": {I1: [0.3, 0.5]}},
+    # Hessian-based minimisers always run to convergence (fit_newton_cg has no iteration limit): few free parameters
+    "small": {"fix_var": {I2: -0.4, R2: 0.8}, "var_range": {R1: [0.2, 1.5]}, "gauss_constr": {I1: [0.3, 0.5]}},
+    "small-plain": {"fix_var": {I2: -0.4, R2: 0.8, I1: 0.2}},
 }
+NEWTON = ("Newton-CG", "trust-krylov", "trust-ncg", "trust-exact", "Newton-CG-p", "trust-krylov-p", "trust-ncg-p", "iminuit")
 
 
 def cfg_text(has_bounds, max_eval=3, max_fits=2, invs=INVS, code=None):
@@ -92,7 +96,7 @@ def run_fit(config, data, phsp, meth, stop):
 
     buf = io.StringIO()
     with contextlib.redirect_stdout(buf):
-        res = config.fit(data=data, phsp=phsp, method=meth, print_init_nll=False, **kw)
+        res = config.fit(data=[data], phsp=[phsp], method=meth, print_init_nll=False, **kw)
     return res
 
 
@@ -146,7 +150,7 @@ def observe(ctx, key, config, amp, fcn, res, before, nll_start, cset, dct, data,
         if not ok or bad:
             probs.append(("save_load:%s" % route, {"names": bad[:4], "loaded": [got.get(k) for k in bad[:4]], "model": [ref[k] for k in bad[:4]]}))
         else:
-            f2 = fresh.get_fcn([data, phsp, None, None])
+            f2 = fresh.get_fcn([[data], [phsp], None, None])
             n2 = nll_at(f2, {})
             if abs(n2 - nll_res) > 1e-9 * max(1.0, abs(nll_res)):
                 probs.append(("save_load_nll:%s" % route, {"fresh": n2, "model": nll_res}))
@@ -183,10 +187,10 @@ def run(ctx):
     p_data = models.phsp_p4(n_data, ctx.seed % 1000 + 21)
     p_phsp = models.phsp_p4(n_phsp, ctx.seed % 1000 + 22)
     if quick:
-        singles = ["BFGS", "CG", "L-BFGS-B", "Newton-CG-p", "trust-ncg-p"]
-        pairs = [("trust-ncg-p", "BFGS"), ("BFGS", "L-BFGS-B")]
+        singles = ["BFGS", "CG", "L-BFGS-B", "Newton-CG-p"]
+        pairs = [("Newton-CG-p", "BFGS"), ("BFGS", "L-BFGS-B")]
         stops = {"BFGS": ["converged", "maxiter", "large"], "CG": ["maxiter"], "L-BFGS-B": ["maxiter"], "Newton-CG-p": ["converged"], "trust-ncg-p": ["converged"]}
-        csets = {"BFGS": ["all", "fixed+tied"], "CG": ["two-sided"], "L-BFGS-B": ["all"], "Newton-CG-p": ["one-sided+gauss"], "trust-ncg-p": ["two-sided"]}
+        csets = {"BFGS": ["all", "fixed+tied"], "CG": ["two-sided"], "L-BFGS-B": ["all"], "Newton-CG-p": ["small"], "trust-ncg-p": ["small"]}
     else:
         singles = ["BFGS", "CG", "Nelder-Mead", "L-BFGS-B", "Newton-CG", "trust-krylov", "trust-ncg", "trust-exact", "Newton-CG-p", "trust-krylov-p", "trust-ncg-p", "iminuit"]
         pairs = [("trust-ncg-p", "BFGS"), ("BFGS", "L-BFGS-B"), ("Newton-CG-p", "iminuit"), ("L-BFGS-B", "CG"), ("trust-ncg-p", "trust-ncg-p"), ("BFGS", "BFGS")]
@@ -194,15 +198,20 @@ def run(ctx):
         for m in ("BFGS", "CG", "Nelder-Mead"):
             stops[m] = ["converged", "maxiter", "large"]
         csets = {m: list(CONSTRAINT_SETS) for m in singles}
-        for m in ("Newton-CG", "trust-krylov", "trust-exact", "trust-ncg", "iminuit", "Nelder-Mead"):
-            csets[m] = ["all", "plain"]
+        for m in NEWTON:
+            csets[m] = ["small", "small-plain"]
+            stops[m] = ["converged"]
+        csets["Nelder-Mead"] = ["small", "plain"]
     scenarios = []
     for m in singles:
         for s in stops[m]:
             for cs in csets[m]:
                 scenarios.append((("none", m, s), cs))
     for a, b in pairs:
-        scenarios.append(((a, b, "maxiter"), "all"))
+        scenarios.append(((a, b, "converged" if b in NEWTON else "maxiter"), "small"))
+    only = os.environ.get("VERIF_C08_ONLY")
+    if only:
+        scenarios = [sc for sc in scenarios if only in sc[0]]
     nrun = 0
     for (prev, meth, stop), cset in scenarios:
         hb = bool(CONSTRAINT_SETS[cset].get("var_range"))
@@ -213,7 +222,7 @@ def run(ctx):
         dct, config, amp = build(cset, ctx.seed % 1000 + nrun, n_data, n_phsp)
         data = config.data.cal_angle(p_data)
         phsp = config.data.cal_angle(p_phsp)
-        fcn = config.get_fcn([data, phsp, None, None])
+        fcn = config.get_fcn([[data], [phsp], None, None])
         try:
             if prev != "none":
                 run_fit(config, data, phsp, prev, "maxiter")
